@@ -542,13 +542,15 @@ Section Encode.
         match first_args instrs block_type freevars st0 with
         | Err e => Err e
         | OK (vals0, st1) =>
-            match relax (3 * length instrs + 2) c blocks vals0 with
+            match add_additional additional block_type freevars st1 with
             | Err e => Err e
-            | OK vals1 =>
-                match add_additional additional block_type freevars st1 with
+            | OK st2 =>
+                (* free variable operands are offset by the number of cell variables before the
+                   instruction sizes are relaxed *)
+                let vals1 := add_freevar_offset (zlen (fa_items (e_cellvars st2))) instrs vals0 in
+                match relax (3 * length instrs + 2) c blocks vals1 with
                 | Err e => Err e
-                | OK st2 =>
-                    let vals2 := add_freevar_offset (zlen (fa_items (e_cellvars st2))) instrs vals1 in
+                | OK vals2 =>
                     match assemble c instrs vals2 0 empty_linemap with
                     | Err e => Err e
                     | OK (code, lm) =>
